@@ -41,6 +41,7 @@ package include
 //@   ensures [C10:stack] forall p string :: visited[p] == old(visited[p])
 //@   ensures [grow_only] forall p string :: old(has(visited, p)) ==> has(visited, p)
 //@   ensures [C10,C20:entered] result0 != nil ==> has(visited, path)
+//@   ensures [C10,C11:depth_is_nesting] (result0 == nil) == (old(mtrue(visited)) >= l.limits.MaxIncludeDepth)
 //@   ensures [C10:too_deep] result0 == nil ==> len(result1) == 1 && (forall p string :: has(visited, p) == old(has(visited, p)))
 //@   ensures [C09:primary_path] result0 != nil ==> result0.PrimaryPath == path && result0.Primary == file.journal && result0.Files != nil && fresh(result0) && fresh(result0.Files)
 //@   ensures [C10,C20:once] result0 != nil ==> (forall p string :: has(result0.Files, p) ==> has(visited, p) && !old(has(visited, p)) && p != path)
@@ -48,6 +49,7 @@ package include
 //@   ensures [C11:own_errors_reported] result0 != nil ==> len(result1) >= len(file.parseErrs) && (forall i int :: {result1[i]} 0 <= i && i < len(file.parseErrs) ==> result1[i].Kind == ErrorParseError && result1[i].Path == path && result1[i].Message == file.parseErrs[i].Message)
 //@   modifies visited[*], l.cache[*]
 //@   loop 1 invariant depth >= 0 && (forall p string :: visited[p] == old(visited[p])) && (forall p string :: has(visited, p) == old(has(visited, p)))
+//@   loop 1 invariant depth == mtrueseen(visited) && (forall k string :: iterseen[k] ==> has(visited, k))
 //@   loop 1 modifies nothing
 //@   loop 1 decreases *
 //@   loop 2 invariant 0 - 1 <= rangeindex && rangeindex <= len(file.parseErrs) - 1 && (forall p string :: visited[p] == old(visited[p])) && (forall p string :: has(visited, p) == old(has(visited, p)))
@@ -93,6 +95,7 @@ package include
 //@   ensures [files_grow] forall p string :: old(has(result.Files, p)) ==> has(result.Files, p) && result.Files[p] == old(result.Files[p])
 //@   ensures [C11:contents_current] forall p string :: {has(result.Files, p)} has(result.Files, p) && !old(has(result.Files, p)) ==> result.Files[p] != nil && parsedFrom(result.Files[p]) == fsread(p)
 //@   ensures [C11:hit_resolves_nested] !old(has(visited, includePath)) ==> has(visited, includePath) || len(result0) > 0
+//@   ensures [C10,C11:too_deep_not_loaded] !old(has(visited, includePath)) && old(mtrue(visited)) >= l.limits.MaxIncludeDepth ==> len(result0) >= 1 && (forall p string :: has(result.Files, p) <==> old(has(result.Files, p)))
 //@   ensures [C10:oversized_on_directive] !old(has(visited, includePath)) && !old(has(l.cache, includePath)) && len(fsread(includePath)) > l.limits.MaxFileSizeBytes ==> len(result0) == 1 && result0[0].Range == incRange && (forall p string :: has(result.Files, p) <==> old(has(result.Files, p)))
 //@   ensures [C11:entered_registered] !old(has(visited, includePath)) && has(visited, includePath) ==> has(result.Files, includePath)
 //@   modifies visited[*], result.Files[*], result.FileOrder, l.cache[*]
